@@ -38,10 +38,11 @@ const (
 	opTimer
 	opCondWait
 	opCondSignal
+	opSched
 )
 
 var opNames = [...]string{"none", "start", "yield", "lock", "rlock", "unlock", "send", "recv", "select", "close", "atomic",
-	"sleep", "read", "write", "netclose", "choose", "cancel", "newctx", "join", "dial", "rand", "once", "wgwait", "timer", "condwait", "condsignal"}
+	"sleep", "read", "write", "netclose", "choose", "cancel", "newctx", "join", "dial", "rand", "once", "wgwait", "timer", "condwait", "condsignal", "sched"}
 
 func (k opKind) String() string { return opNames[k] }
 
@@ -57,6 +58,7 @@ type request struct {
 	kind       opKind
 	site       int
 	cold       bool
+	fn         func()
 	obj        uintptr
 	keep       interface{}
 	chans      []interface{}
@@ -310,6 +312,21 @@ func Join(ts ...*Task) {
 	}
 }
 
+// Sched runs fn in the scheduler goroutine, at a scheduling point of the calling task: the way a task of the harness
+// changes what the scheduler owns (the peer's state, the transport's terminal condition) without touching it from
+// its own goroutine.
+//
+//go:norace
+func Sched(fn func()) {
+	t := me()
+	if t == nil {
+		fn()
+		return
+	}
+	t.req = request{kind: opSched, fn: fn}
+	t.call()
+}
+
 // Yield is an explicit scheduling point.
 //
 //go:norace
@@ -357,8 +374,8 @@ func Record(kind, a, b string, n int64) int {
 		return 0
 	}
 	name := "sched"
-	if s.cur != nil {
-		name = s.cur.name
+	if t := me(); t != nil {
+		name = t.name
 	}
 	seq := s.seq
 	s.seq++
@@ -649,6 +666,9 @@ func (s *Sim) grant(t *Task) string {
 		return s.rendezvous(t, r.keep, false)
 	case opSend:
 		return s.rendezvous(t, r.keep, true)
+	case opSched:
+		r.fn()
+		r.fn = nil
 	case opOnce:
 		os := s.onceOf(r.obj)
 		if os.done || os.running == t {
